@@ -213,9 +213,35 @@ def run(db, cx):
               str([ev.get("rhs") for ev in rng]), short(f.loc))
 
     # ----------------------------------------------------------------- 5. all levels
-    fs = [f for f in db.get(C + "OrangeTrackView::find_safety") if not f.r["params"]]
+    allfs = db.get(C + "OrangeTrackView::find_safety")
+    fs = []
+    for f in allfs:
+        delegates = any(ev["callee"] == C + "OrangeTrackView::find_safety" for (_b, _i, ev) in f.events("call"))
+        rets = [ev for (_b, _i, ev) in f.events("return")]
+        if delegates:
+            ok = all(C + "OrangeTrackView::find_safety" in r.get("calls", []) for r in rets)
+            cx.ob("C11.5-all-levels", "find_safety%s returns what the all-levels find_safety() returns"
+                  % (f.sig.split(")")[0] + ")"), ok, str([r.get("t") for r in rets]), short(f.loc),
+                  why="a radius-limited variant may only shorten the work, not drop levels")
+        else:
+            fs.append(f)
     cx.require(fs, "anchor OrangeTrackView::find_safety() not found")
+    from cfg import loops_of
     for f in fs:
+        # the loop over levels may not be left early: a level that is skipped may hold the nearest wall
+        early = []
+        for (h, body) in loops_of(f):
+            for bb in body:
+                if bb == h:
+                    continue
+                for sx in f.succ(bb):
+                    if sx not in body:
+                        early.append(f.blocks[bb].get("tloc") or str(bb))
+        cx.ob("C11.5-all-levels", "find_safety%s visits every level (no early exit from the level loop)"
+              % (f.sig.split(")")[0] + ")"), not early, "exits from inside the loop: %s" % early if early else "",
+              short(f.loc),
+              why="in ORANGE a daughter universe is truncated by its parent volume and does not know "
+                  "that wall: stopping at a deeper level over-estimates the safety near it")
         rets = [(b, i, ev) for (b, i, ev) in f.events("return")]
         ok = False
         d = ""
